@@ -16,9 +16,9 @@ TECH = {
  "C06": "SSA-form classification of wait-list mutations; lost-update (stale write-back) rule",
  "C07": "decision-table row + argument-flow of the timer + CFG edge-dominance (timer gate) + who-may-write + running-predicate table + nil-guard dominance of every timer use",
  "C08": "dependency-verdict and stage-result path tables; fail-fast effect table; error propagation from the command loop to the stage goroutine on all paths; field wiring",
- "C11": "CFG region/ordering rules, WaitGroup pairing, persist-coverage typestate, signal argument flow",
+ "C11": "CFG region/ordering rules, WaitGroup pairing (runner and stage goroutines), persist-coverage typestate, must-pass of the store's Save in the save function, signal argument flow",
  "C12": "order-type decision table of the retention decision; CFG must-pass (removal effects); comparator orientation; orientation of the list-removal comparison on the loop-body paths",
- "C15": "sibling-agreement over enumerated paths; comparator orientation; map-order-leak rule on the AST",
+ "C15": "sibling-agreement over enumerated paths; comparator orientation; map-order-leak rule on the AST; value-origin rule for the job timestamps (clock or stored field)",
  "C16": "who-reads / who-writes rules over the resolved program; record correspondence of the job snapshot",
  "C18": "argument-flow (merge order) rules, per-job allocation rule, reserved-name dominance rule, path table of the process-environment filter",
  "C19": "labelled value flow of the stream writers to sink positions (field-based through holder structs); key-expression agreement; dominance of the membership test; ownership (no package-level state behind a writer); close-only-when-deferred typestate; reserved-name dominance rule; open-result path table of the file store",
